@@ -15,7 +15,9 @@ package vm
 //@ pure func K1(g GasBudget) int { return g.ExecutionGas + g.UsedExecutionGas + g.Spilled }
 //@ pure func K2(g GasBudget) int { return g.StateGas + g.UsedStateGas - g.Spilled }
 //@ pure func TMAX() int { return 2305843009213693952 }
-// ranged: caller-history bound (total frame budget < 2^61) that keeps the signed accumulator from wrapping.
+// ranged: caller-history bound (frame budget below T = 2^61, reservoir below T) that keeps the
+// signed accumulator from wrapping; it is preserved by every operation (RefundState needs the
+// refunded reservoir to stay below T: refunds return state gas charged earlier in the transaction).
 //@ pure func ranged(g GasBudget) bool { return K1(g) <= TMAX() && g.StateGas <= TMAX() && 0 <= K2(g) && K2(g) <= TMAX() }
 //@ pure func canAfford(g GasBudget, c GasCosts) bool { return g.ExecutionGas >= c.ExecutionGas && (c.StateGas <= g.StateGas || c.StateGas - g.StateGas <= g.ExecutionGas - c.ExecutionGas) }
 
